@@ -60,6 +60,10 @@ PROPS = {
             "assumptions": ["coordinates are multiples of 1/8 (on-grid, half-integer, eighths, clustered with duplicates, outside by +-N and +-3N/2)", "thresholds: 3 % at (1.25, 4) and 0.3 % at (2, 4) from the property; other (oversamp, width) pairs frozen at 3x the worst case measured once on the repaired tree",
                             "the error norm is floating point, computed by the harness: numeric clause, hence level exploration"],
             "trusted": TLC_BASE + ["numpy.exp realisation of the exponent matrices"]},
+    "C10": {"level": "model_checking", "engines": [("wavelet", "wavelet", "run")],
+            "rule": "one case per TLC state of Wavelet.tla (orthogonal wavelet, shape, axes subset, level): advertised and actual coefficient shapes compared exactly with the shape calculus, and the three identities measured for real and complex input; non-trivial = at least one decomposition level",
+            "assumptions": ["quick: haar, db2, db4, sym3, coif1; thorough: haar, db2-8, sym2-8, coif1-5", "identities (irrational filter taps) are numeric: bound 1e-9 relative, validated through AccuracyTrace.tla"],
+            "trusted": TLC_BASE + ["PyWavelets filter lengths (dec_len) as constants of the model"]},
     "C09": {
         "level": "model_checking",
         "engines": [("index_maps", "index_maps", "run")],
@@ -74,6 +78,8 @@ PROPS = {
 HOOK_COMMITS = ["609775d"]
 
 ENGINES = [
+    {"name": "wavelet", "path": "harness/engines/wavelet.py + spec/Wavelet.tla, spec/AccuracyTrace.tla", "serves_properties": ["C10", "C01"],
+     "kind_free_text": "TLC: exact coefficient-shape calculus over families x shapes x axes x levels; harness: shape comparison and measured identities validated by TLC"},
     {"name": "nufft", "path": "harness/engines/nufft.py + spec/Nufft.tla, spec/AccuracyTrace.tla", "serves_properties": ["C06", "C04", "C02", "C01"],
      "kind_free_text": "TLC: exact NDFT exponent matrices and periodicity laws; harness: dense probing of nufft / adjoint / NUFFT linop; TLC validates the measured defects against the thresholds held in AccuracyTrace"},
     {"name": "conv", "path": "harness/engines/conv.py + spec/Conv.tla", "serves_properties": ["C08", "C01"],
@@ -134,7 +140,7 @@ MANIFEST_TEXT = {
 }
 
 NOT_APPLICABLE = {p: "check not built yet in this round (planned, see DESIGN.md section 5)" for p in
-                  ["C10", "C16", "C17", "C19"]}
+                  ["C16", "C17", "C19"]}
 
 MANIFEST_TEXT["C18"] = {
     "text": "PoissonSearch.tla models the slope bisection on a float lattice with an arbitrary (non-monotone) acceleration function; TLC checks OkIsWithinTol and the liveness property Terminates (the loop without the collapse test is kept as a negative control that must fail). poisson() is run on the real code with _poisson wrapped under a watchdog; every call (probes as slope ranks + integer facts about the mask, RNG state crc, reproducibility memo) is validated by TLC against PoissonTrace.tla.",
@@ -189,3 +195,9 @@ MANIFEST_TEXT["C06"] = {
     "design_ref": "DESIGN.md section 5 C06",
     "note": "Accuracy is a floating-point statement: exploration level. Thresholds other than the two stated by the property are calibrated (3x measured) and frozen.",
     "technique": "TLA+ exact exponent-matrix reference + measured-defect traces validated by TLC against spec thresholds"}
+
+MANIFEST_TEXT["C10"] = {
+    "text": "Wavelet.tla computes the coefficient-array shape exactly (even padding of every axis, floor((n+L-1)/2) per analysis step, PyWavelets' maximum level rule, the [cA | cD_J | ... | cD_1] layout) for every enumerated (wavelet, shape, axes, level) and TLC checks its consistency laws; the harness compares fwt(x).shape and Wavelet.oshape with it exactly and measures perfect reconstruction, norm preservation and adjointness for real and complex input, accepted by TLC against the 1e-9 bounds of AccuracyTrace.tla.",
+    "design_ref": "DESIGN.md section 5 C10",
+    "note": "model_checking for the shape bookkeeping; the identities with irrational taps are numeric (self-referential, no external reference needed).",
+    "technique": "TLA+ exact shape calculus (TLC) + measured identities validated against spec thresholds"}
